@@ -1,7 +1,7 @@
 /- Line-protocol driver for the WebSocket framing model (Paho.Model.Ws).
 ops:  feed <hex> | eagain | eof | err | items <i,i,...> (hex | . | eof | err)   -> ok
       recv <n>            -> data=<hex> | block | closed, then ` conn=<0|1> sent=<hex>,<hex>..|-`
-      send <hex> <key8> <accept>  -> ret=<n> wire=<hex>
+      send <hex> <key8> <accept n | b | e>  -> ret=<n>|exc:BlockingIOError|exc:BrokenPipeError wire=<hex>
       reset               -> ok -/
 import Paho.Driver.Common
 import Paho.Model.Ws
@@ -45,10 +45,16 @@ def wsStep (x : WsSt) (ws : List String) : WsSt × String :=
       let sentS := if sent.isEmpty then "-" else ",".intercalate (sent.map toHex)
       ({ x with r := r, q := q }, o ++ " conn=" ++ b01 r.connected ++ " sent=" ++ sentS)
   | ["send", d, k, a] =>
-    match parseHex d, parseHex k, a.toNat? with
+    let outc : Option SockSend :=
+      if a = "b" then some .wouldBlock else if a = "e" then some .error else a.toNat?.map .accept
+    match parseHex d, parseHex k, outc with
     | some d, some k, some a =>
-      let (s, wire, ret) := sendImpl x.s d k a
-      ({ x with s := s }, s!"ret={ret} wire={toHex wire}")
+      let (s, wire, res) := sendImpl x.s d k a
+      let o := match res with
+        | .ret n => s!"ret={n}"
+        | .raised true => "exc:BlockingIOError"
+        | .raised false => "exc:BrokenPipeError"
+      ({ x with s := s }, s!"{o} wire={toHex wire}")
     | _, _, _ => (x, "bad-op")
   | ["reset"] => ({}, "ok")
   | _ => (x, "bad-op")
